@@ -24,7 +24,7 @@ from vlib import Infra
 GEN = "SPECIFICATION Spec\nCONSTANTS\n  Kind = \"%s\"\n  NV = %d\n  MaxF = %d\n  MaxN = %d\nCHECK_DEADLOCK FALSE\n"
 JUDGE = "SPECIFICATION Spec\nCHECK_DEADLOCK FALSE\n"
 CLAUSES = {"panic", "needs", "singular", "inconsistent", "orientable", "manifold2", "inconsistent2", "repair", "normals",
-           "nesting", "evenodd", "orientations", "dcrepair", "selfint"}
+           "nesting", "evenodd", "orientations", "dcrepair", "selfint", "clusters"}
 
 
 def stage(ctx, name, kind, nv, maxf, maxn, extra_args=(), sample=None):
